@@ -732,13 +732,16 @@ proof fn closure_step<M: Model>(m: M, g3: Gen, st3: StMap<M::State>, pth3: PthMa
         closed_ok(m, g3, st3, expanded), extends(g3, st3, pth3, g, st, pth),
         forall|x: Fingerprint| expanded.contains(x) ==> g3.contains_key(x),
         explog_ok(el, expanded), !expanded.contains(k), fp_of(s) == k, st[k] == s,
-        forall|n: int| 0 <= n < m.acts(s).len() && #[trigger] in_succ_at(m, s, n) ==> g.contains_key(fp_of(m.nxt(s, m.acts(s)[n]).unwrap())),
     ensures
-        closed_ok(m, g, st, expanded.insert(k)),
+        // the fact about the code (every in-boundary successor of s has been generated) is the premise of the conclusion,
+        // not a precondition: an expansion that misses a successor then fails its own clause `closure`
+        (forall|n: int| 0 <= n < m.acts(s).len() && #[trigger] in_succ_at(m, s, n) ==> g.contains_key(fp_of(m.nxt(s, m.acts(s)[n]).unwrap())))
+            ==> closed_ok(m, g, st, expanded.insert(k)),
         explog_ok(el.push(s), expanded.insert(k)),
         total_succ(m, el.push(s)) == total_succ(m, el) + succ_count(m, s, m.acts(s).len() as int),
 {
     reveal(closed_ok); reveal(extends); reveal(explog_ok);
+    if forall|n: int| 0 <= n < m.acts(s).len() && #[trigger] in_succ_at(m, s, n) ==> g.contains_key(fp_of(m.nxt(s, m.acts(s)[n]).unwrap())) {
     assert forall|x: Fingerprint, t: M::State| expanded.insert(k).contains(x) && #[trigger] is_succ(m, st[x], t) implies g.contains_key(fp_of(t)) by {
         if x == k {
             let a = choose|a: M::Action| #[trigger] m.acts(s).contains(a) && m.nxt(s, a) == Some(t) && m.within(t);
@@ -749,6 +752,7 @@ proof fn closure_step<M: Model>(m: M, g3: Gen, st3: StMap<M::State>, pth3: PthMa
             assert(is_succ(m, st3[x], t));
             assert(g3.contains_key(fp_of(t)));
         }
+    }
     }
     let e2 = el.push(s);
     assert(e2.drop_last() == el);
